@@ -1,5 +1,7 @@
 import Rtcm.Model.Scan
 import Rtcm.Model.Bits
+import Rtcm.Model.TokText
+import Rtcm.Gen.DfTable
 /-!
 Line-protocol driver for the correspondence check: one operation per input line, one canonical
 answer line per operation. Import-free below (no Mathlib) so that it links as an executable.
@@ -62,8 +64,37 @@ def opPut (cfg : Cfg) (it : Bits.IT) (off len value : Nat) (buf : List UInt8) : 
 def opParse (cfg : Cfg) (it : Bits.IT) (off len : Nat) (buf : List UInt8) : String :=
   resStr (fun r => s!"{r.1} {r.2}") (Bits.parse cfg it (natBytes buf) off len)
 
+def findDf (id : String) : Option Schema.DfSpec := Gen.dfTable.find? (·.id == id)
+
+def zeroBuf : List Nat := List.replicate 16 0
+
+def opDfEnc (cfg : Cfg) (id : String) (ws : List String) : String :=
+  match findDf id, parseToks ws with
+  | some s, some ts =>
+    match Df.encode cfg s ts { data := zeroBuf, off := 0 } with
+    | .ok (c, []) =>
+      resStr (fun r => s!"{r.1} {c.off}") (Bits.parse cfg ⟨.u, 64⟩ c.data 0 c.off)
+    | .ok (_, _) => "BAD-OP"
+    | .err e => "ERR " ++ e.name
+    | .panic w => if w.startsWith "tokens" then "BAD-OP" else "PANIC"
+  | _, _ => "BAD-OP"
+
+def opDfDec (cfg : Cfg) (id : String) (len pattern : Nat) : String :=
+  match findDf id with
+  | some s =>
+    match Bits.put cfg ⟨.u, 64⟩ zeroBuf 0 pattern len with
+    | .ok (buf, _) =>
+      resStr (fun r => s!"{r.2.off} " ++ toksText r.1) (Df.decode cfg s { data := buf, off := 0 })
+    | _ => "BAD-OP"
+  | none => "BAD-OP"
+
 def handleCfg (cfg : Cfg) (toks : List String) : String :=
   match toks with
+  | "DFENC" :: id :: ws => opDfEnc cfg id ws
+  | ["DFDEC", id, len, p] =>
+    match len.toNat?, p.toNat? with
+    | some len, some p => opDfDec cfg id len p
+    | _, _ => "BAD-OP"
   | ["PUT", k, w, off, len, v, h] =>
     match parseKind k, w.toNat?, off.toNat?, len.toNat?, v.toNat?, bytesOfHex h with
     | some k, some w, some off, some len, some v, some d => opPut cfg ⟨k, w⟩ off len v d
